@@ -18,7 +18,7 @@ SEARCH_AOBJ = $(patsubst engines/%.cpp,$(B)/asan/%.o,$(SEARCH_SRC))
 
 .PHONY: all prod asan clean
 all: prod
-prod: $(B)/search $(B)/segmentation $(B)/dynamic $(B)/multidim $(B)/mapped
+prod: $(B)/search $(B)/segmentation $(B)/dynamic $(B)/multidim $(B)/mapped $(B)/cabi
 
 $(STAMP):
 	@mkdir -p $(B) && touch $@
@@ -53,6 +53,20 @@ $(B)/mapped: $(B)/prod/mapped.o
 	$(CXX) $(PROD) $^ -o $@
 
 $(B)/mapped_asan: $(B)/asan/mapped.o
+	$(CXX) $(ASAN) $^ -o $@
+
+$(B)/prod/cpgm.o: $(REPO)/c-interface/cpgm.cpp $(STAMP)
+	@mkdir -p $(dir $@)
+	$(CXX) $(PROD) -c $< -o $@
+
+$(B)/asan/cpgm.o: $(REPO)/c-interface/cpgm.cpp $(STAMP)
+	@mkdir -p $(dir $@)
+	$(CXX) $(ASAN) -c $< -o $@
+
+$(B)/cabi: $(B)/prod/cabi.o $(B)/prod/cpgm.o
+	$(CXX) $(PROD) $^ -o $@
+
+$(B)/cabi_asan: $(B)/asan/cabi.o $(B)/asan/cpgm.o
 	$(CXX) $(ASAN) $^ -o $@
 
 $(B)/search_asan: $(SEARCH_AOBJ)
